@@ -117,8 +117,9 @@ def collapse(ev):
         seen.add(k); out.append(e)
     return out
 
-def dependency_closure(f, nid):
-    """node ids an expression depends on: its operand tree plus, through locals, every definition of those locals"""
+def dependency_closure(f, nid, stop=None):
+    """node ids an expression depends on: its operand tree plus, through locals, every definition of those locals
+    (stop(node) true: the node is kept but its operands are not followed)"""
     seen = set(); work = [nid]; locs = set()
     defs = {}
     for i, m in enumerate(f.nodes):
@@ -135,6 +136,7 @@ def dependency_closure(f, nid):
         seen.add(i)
         n = f.nodes[i]
         if not n: continue
+        if stop and stop(n): continue
         for key in ('lhs', 'rhs', 'e', 'b', 'i', 'c', 'a', 'obj', 'fn'):
             v = n.get(key)
             if isinstance(v, int) and key != 'l': work.append(v)
